@@ -37,6 +37,13 @@ MAP = [
     ("path-length and edge-position variables must not be integer", "C10", "kMinPathError with a length attribute holding non-integral edge lengths was always infeasible: path-length / edge-position variables were declared integer although they are sums of edge lengths"),
     ("MinSetCover must not drop a selected subset", "C15", "MinSetCover.solve() compared the solver values of its 0/1 variables with == 1: a selected subset returned as 0.9999999999999999 was dropped and the returned index list was not a cover (universe 0..5, 8 weighted subsets; found by the thorough tier, now in the quick corpus)"),
     ("kMinPathError slack bound must account for path-length factors below 1", "C08", "kMinPathError with path_length_factors containing a factor < 1 was infeasible for k >= width when the needed slack error/factor exceeds w_max (chain with flows 1,1,0,0, factors [1.0,0.5], k=1); found by the thorough tier, now in the quick corpus"),
+    ("read_graph must not skip the edge lines of a block whose vertex-count line is 0", "C20", "a vertex-count line '0' made read_graph return before reading the edge lines and before any validation: listed edges dropped, malformed edge lines / non-numeric weights / absent constraint edges accepted (pointed out by a bug-hunting sub-agent; the harness had even encoded the quirk as an exemption, now removed)"),
+    ("read_graph must not fail on a block whose graph has no source or no sink", "C20", "a well-formed block whose graph has no source or no sink (2-cycle) made read_graph/read_graphs raise ValueError from the width computation"),
+    ("blank lines between the header lines of a block", "C20", "a blank line between two '#' header lines broke read_graph (next header line read as vertex count) and read_graphs (block cut in two)"),
+    ("a non-positive k must be rejected also when solution_weights_superset is given", "C19", "kLeastAbsErrors / kMinPathError accepted k <= 0 when solution_weights_superset was given (k overwritten before the positivity check); kLeastAbsErrors(k=0) reported itself solved"),
+    ("flow-conservation check must not depend on the order in which float values are summed", "C19", "an exactly conserved float flow (0.1,0.2,0.3 in / 0.3,0.2,0.1 out) was rejected by kFlowDecomp, MinFlowDecomp, MinFlowDecompCycles depending on edge insertion order (float sums compared with !=)"),
+    ("kFlowDecomp must not crash on an all-zero flow", "C19", "kFlowDecomp / MinFlowDecomp raised IndexError on an all-zero flow (greedy shortcut indexed an empty path list)"),
+    ("malformed constraints must be rejected with ValueError, not IndexError/TypeError", "C19", "[[]] on node-weighted input raised IndexError; an edge written as a list raised TypeError in kFlowDecomp, MinFlowDecomp, kLeastAbsErrors, kLeastAbsErrorsCycles, kMinPathErrorCycles"),
     ("MinErrorFlow with few_flow_values_epsilon on node-weighted", "C16", "MinErrorFlow(flow_attr_origin='node', few_flow_values_epsilon>0) raised KeyError"),
 ]
 def main():
